@@ -204,6 +204,9 @@ class Analysis:
     def project(self, pv, elem):
         if elem[0] == "f":
             f = elem[1]
+            if pv[0] == "proj" and pv[2] == ("dc", 1) and pv[1][0] == "sliceget" and f == 0:
+                sg = pv[1]
+                return ("ref", ("index", ("deref", sg[1]), sg[2]))
             if pv[0] == "agg" and f < len(pv[2]):
                 return pv[2][f]
             if pv[0] == "checked":
@@ -425,6 +428,11 @@ class Analysis:
                     return ("slicefrom", S, rng[2][0])
                 if kind == "to":
                     return ("sliceto", S, rng[2][0])
+        if base == "core::slice::{impl#0}::get" and len(args) == 2:
+            tk = self.vtype.get(args[1])
+            if tk is not None and tk["k"] == "uint":
+                # Some(&S[i]) iff i < len(S): the payload is a reference to that element
+                return ("sliceget", args[0], args[1])
         if base == "core::slice::{impl#0}::is_empty" and len(args) == 1:
             v = ("bin", "Eq", self.len_of(args[0]), ("const", 0, "usize"))
             return v
